@@ -110,6 +110,21 @@ class ServerWorld:
                 raise RuntimeError("injected failure inside the step")
             return world._orig_rss(runner_self, *a, **k)
         sdr.SdRunner.run_scenario_step = rss
+        if self.cfg.get("scenario_files"):
+            import os
+            import sys
+            import importlib
+            from checks.c07 import write_files
+            mc = self.model_cfg
+            mgr = sorted(mc["managers"])[0]
+            wd = os.getcwd()
+            _mod, self._files_written = write_files({"bases": [{"template": mc["template"], "start": mc["start"], "stop": mc["stop"], "dt": mc["dt"],
+                                                                "constants": mc.get("constants"), "points": mc.get("points"), "initial": mc.get("initial")}],
+                                                     "managers": [{"name": mgr, "scenarios": copy.deepcopy(mc["managers"][mgr])}]}, wd)
+            if wd not in sys.path:
+                sys.path.insert(0, wd)
+            importlib.invalidate_caches()
+            self.result.probe("scenarios_from_files")
         return self
 
     def __exit__(self, *a):
@@ -118,6 +133,18 @@ class ServerWorld:
         finally:
             self._sdr.SdRunner.run_scenario_step = self._orig_rss
             self._cm.__exit__(None, None, None)
+            # nothing of a file-based world stays behind in the scratch directory (the next world's bptk() would read it)
+            import os
+            import shutil
+            for path in getattr(self, "_files_written", []):
+                try:
+                    if os.path.isdir(path):
+                        shutil.rmtree(path, ignore_errors=True)
+                    elif os.path.exists(path):
+                        os.remove(path)
+                except OSError:
+                    pass
+            self._files_written = []
         return False
 
     # ------------------------------------------------------------ factory
@@ -161,6 +188,18 @@ class ServerWorld:
                         Scheduler.active.yield_now("slow_release")
                     world.clock.advance(cost - cost // 7)
                 return super().destroy()
+
+        def file_factory():
+            # the scenarios come from ./scenarios/*.json of the run's scratch directory, the model class from a module next to it:
+            # what `lambda: BPTK_Py.bptk()` gives a deployment that keeps its scenarios in files
+            b = SimBptk()
+            world.serial += 1
+            b._sim_serial = world.serial
+            world.bptks[b._sim_serial] = b
+            return b
+
+        if world.cfg.get("scenario_files"):
+            return file_factory
 
         def factory():
             if world.cfg.get("shared_base"):
